@@ -196,6 +196,7 @@ EXT_FUNCS = {
     'posixpath.basename': PURE, 'posixpath.dirname': PURE, 'posixpath.join': PURE,
     'os.getcwd': PURE, 'os.strerror': PURE, 'os.path.join': PURE, 'os.path.dirname': PURE,
     'asyncio.sleep': PURE, 'asyncio.wait_for': ('consume_then', 'wait_for'), 'asyncio.open_connection': ('deferred', 'net_task'),
+    'asyncio.Lock': PURE,
     'asyncio.iscoroutine': PURE, 'asyncio.iscoroutinefunction': PURE, 'asyncio.get_event_loop': PURE,
     'warnings.warn': PURE,
     'zlib.decompressobj': PURE,
@@ -281,6 +282,7 @@ EXT_METHODS = {
     'cookie_jar': {'*': 'prim:cookie_jar'},
     'pool': {'acquire': 'prim:pool_acquire', 'acquire_proxy': 'prim:pool_acquire', 'no_wait_release': LOCAL, 'close': LOCAL},
     'event_loop': {'*': PURE},
+    'asyncio_lock': {'acquire': PURE, 'release': PURE, 'locked': PURE},   # local synchronisation; cancellation is out of scope
     'timer_handle': {'cancel': PURE},
     'regex_stream': {'stream': 'prim:regex_stream'},
     'datetime': {'replace': 'prim:datetime'},
@@ -356,6 +358,8 @@ RECV_TYPES = {
     ('*', 'data_stream'): ['wpull.protocol.ftp.stream:DataStream'],
     ('*', 'self._robots_txt_pool'): ['wpull.robotstxt:RobotsTxtPool'],
     ('*', 'self._parsers'): ['ext:dict'],
+    ('*', 'self._fetch_locks'): ['ext:dict'],
+    ('wpull.protocol.http.robots:RobotsTxtChecker.can_fetch', 'lock'): ['ext:asyncio_lock'],
     ('*', 'parser'): ['ext:robots_parser'],
     ('*', 'regex_stream'): ['ext:regex_stream'],
     ('*', 'self.css_scraper'): ['wpull.scraper.css:CSSScraper'],
@@ -556,7 +560,7 @@ SAFE_SITES = {
     ('wpull.decompression:DeflateDecompressor.is_zlib_header', 'index', 'data[1]'): 'called once 2 bytes are buffered',
     # ---- robots
     ('wpull.robotstxt:RobotsTxtPool.can_fetch', 'index', 'self._parsers[key]'): 'has_parser(url_info) checked by the only caller',
-    ('wpull.protocol.http.robots:RobotsTxtChecker.can_fetch', 'noraise', 'self.can_fetch_pool#2'):
+    ('wpull.protocol.http.robots:RobotsTxtChecker.can_fetch', 'noraise', 'self.can_fetch_pool#3'):
         (['wpull.protocol.http.robots.NotInPoolError'], 'fetch_robots_txt loads a parser for this url_info on every path that returns'),
     ('wpull.protocol.http.robots:RobotsTxtChecker.fetch_robots_txt', 'noraise', 'Request#1'):
         (['builtins.ValueError'], 'robots.txt URL is built from an already parsed URLInfo'),
